@@ -8,7 +8,19 @@ import "github.com/preslavrachev/gomjml/mjml/options"
 
 // VerifApplyInlineStylesToHTML runs the inline-style scanner over an HTML fragment.
 func VerifApplyInlineStylesToHTML(html string, styles map[string][]options.InlineStyle) string {
-	return applyInlineStylesToHTML(html, styles, nil)
+	bc := &BaseComponent{RenderOpts: &options.RenderOpts{InlineClassStyles: styles}}
+	return applyInlineStylesToHTML(html, styles, bc)
+}
+
+// VerifInlineStylesInTag runs the scanner's per-tag step (parse the start tag, add the declarations, write it back).
+func VerifInlineStylesInTag(tag string, styles map[string][]options.InlineStyle) string {
+	bc := &BaseComponent{RenderOpts: &options.RenderOpts{InlineClassStyles: styles}}
+	return inlineStylesInTag(tag, styles, bc)
+}
+
+// VerifMergeInlineStyleValues exposes mergeInlineStyleValues.
+func VerifMergeInlineStyleValues(existing, inline string) string {
+	return mergeInlineStyleValues(existing, inline)
 }
 
 // VerifFindTagEnd exposes findTagEnd.
